@@ -41,15 +41,29 @@ pub struct Opt {
     pub seek: Seek,
     pub pad: Pad,
     pub declared: bool,
+    /// 0 = build from `Options::default()` with the fields above; 1 = `Options::fast()`, 2 = `Options::best()` taken whole
+    /// (block/lpc/part/mid_side/fast/win then only MIRROR the preset for bookkeeping; seek/pad/declared still apply)
+    pub preset: u8,
 }
 
 impl Opt {
     /// `Options::default()` with the block size forced to 16 and undeclared length.
     pub const fn base16() -> Opt {
-        Opt { block: 16, lpc: Some(8), part: 5, mid_side: true, fast: false, win: Win::Tukey(0.5), seek: Seek::Default, pad: Pad::Default, declared: true }
+        Opt { block: 16, lpc: Some(8), part: 5, mid_side: true, fast: false, win: Win::Tukey(0.5), seek: Seek::Default, pad: Pad::Default, declared: true, preset: 0 }
+    }
+    pub const fn fast_preset() -> Opt {
+        Opt { block: 1152, lpc: None, part: 3, mid_side: false, fast: true, preset: 1, ..Opt::base16() }
+    }
+    pub const fn best_preset() -> Opt {
+        Opt { block: 4096, lpc: Some(12), part: 6, mid_side: true, fast: false, preset: 2, ..Opt::base16() }
     }
     pub fn to_options(&self) -> Result<Options, String> {
-        let mut o = Options::default()
+        let mut o = if self.preset == 1 {
+            Options::fast()
+        } else if self.preset == 2 {
+            Options::best()
+        } else {
+            Options::default()
             .block_size(self.block)
             .map_err(|e| format!("opt:{e:?}"))?
             .max_lpc_order(self.lpc)
@@ -62,7 +76,8 @@ impl Opt {
                 Win::Tukey(p) => Window::Tukey(p),
                 Win::Rect => Window::Rectangle,
                 Win::Hann => Window::Hann,
-            });
+            })
+        };
         o = match self.seek {
             Seek::Default => o,
             Seek::Off => o.no_seektable(),
@@ -82,7 +97,7 @@ impl Opt {
             "win": match self.win { Win::Tukey(p) => format!("tukey:{}", p), Win::Rect => "rect".into(), Win::Hann => "hann".into() },
             "seek": match self.seek { Seek::Default => "default".to_string(), Seek::Off => "off".into(), Seek::Frames(n) => format!("frames:{n}"), Seek::Seconds(n) => format!("seconds:{n}") },
             "pad": match self.pad { Pad::Default => "default".to_string(), Pad::None => "none".into(), Pad::Size(n) => format!("size:{n}") },
-            "declared": self.declared,
+            "declared": self.declared, "preset": self.preset,
         })
     }
     pub fn from_json(v: &Value) -> Opt {
@@ -100,6 +115,7 @@ impl Opt {
             seek: if seek == "off" { Seek::Off } else if let Some(n) = seek.strip_prefix("frames:") { Seek::Frames(n.parse().unwrap_or(1)) } else if let Some(n) = seek.strip_prefix("seconds:") { Seek::Seconds(n.parse().unwrap_or(1)) } else { Seek::Default },
             pad: if pad == "none" { Pad::None } else if let Some(n) = pad.strip_prefix("size:") { Pad::Size(n.parse().unwrap_or(0)) } else { Pad::Default },
             declared: v["declared"].as_bool().unwrap_or(true),
+            preset: v["preset"].as_u64().unwrap_or(0) as u8,
         }
     }
 }
@@ -120,7 +136,7 @@ impl OptMenu {
         vec![Self::BLOCK.len(), Self::LPC.len(), Self::PART.len(), Self::MID.len(), Self::FAST.len(), Self::WIN.len(), Self::SEEK.len(), Self::PAD.len(), Self::DECL.len()]
     }
     pub fn pick(v: &[usize]) -> Opt {
-        Opt { block: Self::BLOCK[v[0]], lpc: Self::LPC[v[1]], part: Self::PART[v[2]], mid_side: Self::MID[v[3]], fast: Self::FAST[v[4]], win: Self::WIN[v[5]], seek: Self::SEEK[v[6]], pad: Self::PAD[v[7]], declared: Self::DECL[v[8]] }
+        Opt { block: Self::BLOCK[v[0]], lpc: Self::LPC[v[1]], part: Self::PART[v[2]], mid_side: Self::MID[v[3]], fast: Self::FAST[v[4]], win: Self::WIN[v[5]], seek: Self::SEEK[v[6]], pad: Self::PAD[v[7]], declared: Self::DECL[v[8]], preset: 0 }
     }
 }
 
